@@ -227,3 +227,30 @@ def record_onpolicy(cache: tb.EnvCache, cfg: dict, algo_name: str, N: int, iters
                                                 "retN": int(round(recs[-1][1]["episode/return"] * N * SD)),
                                                 "lenN": int(round(recs[-1][1]["episode/length"] * N * SD))} if recs else None)}})
     return traces
+
+
+def record_from_state(cfg: dict, env, algo, state, cb, backend, seed: int) -> list:
+    """one real iteration (rollout length cfg['H'], one environment) from the given algorithm state; same trace format as
+    record_onpolicy (the carried state before the iteration is the trace's init)"""
+    depth = len(cfg["stack"])
+    asp, osp = tb.outer_spaces(cfg)
+    T = cfg["H"]
+    D = 2 ** (2 * T - 1)
+    before = jax.device_get(state.step_state)
+    del backend.records[:]
+    new = _iteration(algo, state, jr.key(seed), cb)
+    b = jax.device_get(new.callback_state.states[0].log["buffer"])
+    after = jax.device_get(new.step_state)
+    jax.effects_barrier()
+    rows = []
+    for t in range(T):
+        rows.append(dict(
+            obs=tb.obs_code(osp["kind"], b.observations[t]), act=act_code(asp["kind"], b.actions[t]),
+            rew=half(b.rewards[t]), done=bool(b.dones[t]), logp=tb.q4(b.log_probs[t]), val=tb.q4(b.values[t]) // 4
+            if tb.q4(b.values[t]) % 4 == 0 else 7777777, pstate=int(b.states.n[t]),
+            mask=[bool(x) for x in b.action_masks[t]] if b.action_masks is not None else []))
+    init = dict(tb.proj_env_state(before.env_state, depth), ps=int(before.policy_state.n), stats=proj_stats(before.callback_state.states[1]))
+    fin = dict(tb.proj_env_state(after.env_state, depth), ps=int(after.policy_state.n),
+               adv=[fx(x, D) for x in b.advantages], ret=[fx(x, D) for x in b.returns], stats=proj_stats(after.callback_state.states[1]))
+    return [{"cfg": cfg, "init": init, "rows": rows, "final": fin,
+             "meta": {"algo": "PPO", "N": 1, "env": 0, "iter": 0, "dones_so_far": sum(1 for r in rows if r["done"]), "record": None}}]
